@@ -4,3 +4,4 @@ import CtyModel.Props.C03
 import CtyModel.Props.C10
 import CtyModel.Props.C11
 import CtyModel.Props.C14
+import CtyModel.Props.C18
